@@ -124,11 +124,11 @@ pub fn refuse(Ghost(r): Ghost<bool>) -> !
 // zerocopy stand-ins (D2, D3).  Contracts are discharged by Kani against the real
 // zerocopy types (kani/lib.rs: zc_*).
 
-#[derive(Clone, Copy)]
+#[derive(Clone, Copy, PartialEq, Eq)]
 pub struct U16 { pub v: u16 }
-#[derive(Clone, Copy)]
+#[derive(Clone, Copy, PartialEq, Eq)]
 pub struct U32 { pub v: u32 }
-#[derive(Clone, Copy)]
+#[derive(Clone, Copy, PartialEq, Eq)]
 pub struct U64 { pub v: u64 }
 
 impl U16 {
